@@ -14,6 +14,7 @@ import (
 	crand "crypto/rand"
 	"fmt"
 	"strings"
+	"time"
 
 	tls "github.com/refraction-networking/utls"
 )
@@ -200,16 +201,22 @@ func execEchConn(in KV) string {
 			}
 		}
 		var pre string
-		res := runHS(HSOpts{ID: id, ClientCfg: &tls.Config{Rand: &recReader{r: NewRng(rr.U64())}}, ServerCfg: scfg, Hooks: hooks, AppData: []byte("ping"),
-			Prepare: func(u *tls.UConn) error {
-				if err := u.BuildHandshakeState(); err != nil {
-					return err
-				}
-				if g := findECH(u.Extensions); g != nil {
-					pre = frozenStr(g)
-				}
-				return nil
-			}})
+		var res *HSResult
+		for attempt := 0; attempt < 3; attempt++ { // a deadline expired under load: run the connection again
+			res = runHS(HSOpts{ID: id, Timeout: 20 * time.Second, ClientCfg: &tls.Config{Rand: &recReader{r: NewRng(rr.U64())}}, ServerCfg: scfg, Hooks: hooks, AppData: []byte("ping"),
+				Prepare: func(u *tls.UConn) error {
+					if err := u.BuildHandshakeState(); err != nil {
+						return err
+					}
+					if g := findECH(u.Extensions); g != nil {
+						pre = frozenStr(g)
+					}
+					return nil
+				}})
+			if res.ClientErr == nil && res.ServerErr == nil && res.EchoOK {
+				break
+			}
+		}
 		chs := clientHellos(res.ClientWire)
 		ch1, ch2 := "-", "-"
 		if len(chs) > 0 {
@@ -238,5 +245,5 @@ func execEchConn(in KV) string {
 
 func init() {
 	register(&Family{Name: "ech_init", Gen: genEchInit, Exec: execEchInit})
-	register(&Family{Name: "ech_conn", Gen: genEchConn, Exec: execEchConn})
+	register(&Family{Name: "ech_conn", Gen: genEchConn, Exec: execEchConn, Timeout: 240 * time.Second})
 }
